@@ -288,6 +288,20 @@ def check_exclusion(prog, rep, f, entry, k, copy, data):
     ne = [a for a in atoms if isinstance(a, App) and a.name == 'isnan' and es and a.args[0] == Rat.atom(es[0])]
     other = [a for a in atoms if a not in es + nv + ne + [v] and not isinstance(a, Sym) and
              not (isinstance(a, App) and a.name in ('ite', 'bool', 'abs', 'min', 'max'))]
+    tolerant = [a for a in other if isinstance(a, App) and a.name.split('.')[-1] in ('isclose', 'allclose')]
+    for a in other:
+        # a helper of the package that the interpreter left as a call: does it apply a tolerance test to its arguments?
+        if isinstance(a, App) and a.name.startswith('call:'):
+            h = f.module.funcs.get(a.name[5:].split('.')[-1])
+            if h is not None and any(isinstance(c_, ast.Call) and norm(c_.func).split('.')[-1] in ('isclose', 'allclose') and
+                                     any(isinstance(x_, ast.Name) and x_.id in h.params for a_ in c_.args for x_ in ast.walk(a_))
+                                     for c_ in ast.walk(h.node)):
+                tolerant.append(a)
+    if tolerant:
+        rep.add('F2', f, entry, 'excluded test: %s' % shown, line, False,
+                'a cell is excluded exactly when it EQUALS an excluded value (NaN matching NaN): %s accepts every value within a '
+                'tolerance, so cells next to an excluded value pass through unsmoothed' % show(tolerant, 80))
+        return
     if len(es) != 1 or other:
         rep.add('F2', f, entry, 'excluded test: %s' % shown, line, None if other else False,
                 'the cell value must be compared with the elements of the exclusion list (element reads %d, other quantities %s)' % (
@@ -598,6 +612,14 @@ def check(prog, rep):
     check_convolve(prog, rep)
     check_stats_table(prog, rep, m)
     check_hotspots(prog, rep, m)
+    from ..sharedrules import check_dispatch_passthrough
+    for fn in ('apply', 'hotspots'):
+        if m.funcs.get(fn) is not None:
+            check_dispatch_passthrough(prog, rep, 'F7-pass', m.funcs[fn])
+    cv = prog.module('convolution').funcs.get('convolution_2d')
+    if cv is not None:
+        check_dispatch_passthrough(prog, rep, 'F7-pass', cv)
+    rep.floor('F7-pass', 5)
     rep.floor('H1', 10)
     rep.floor('F1', 6)
     rep.floor('F2', 6)
